@@ -1106,5 +1106,120 @@ theorem scatter_eq_gather_of_le_one {β : Type} (d : β) (fill : Int) (U : List 
         rw [h1, h2]
         simp
 
+/-! ### unique_counts -/
+
+theorem ucd_fst (l : List Int) : (uniqueCountsD l).map (·.1) = uniqueValuesD l := by
+  simp [uniqueCountsD, Function.comp_def]
+
+theorem ucd_snd (l : List Int) : (uniqueCountsD l).map (·.2) = (uniqueValuesD l).map fun v => l.count v := by
+  simp [uniqueCountsD, Function.comp_def]
+
+/-- **core of `unique_counts_spec`** for the corrected re-ordering (`values = values[sorted_indices]`) -/
+theorem uniqueCounts_gather_core {n : Nat} {es : Row} (fill : Int) (h : RowWF n es)
+    (hnf : es.length < n → fill ∉ valsR es) :
+    (if es.length < n then
+        (gather 0 (argsort (fill :: (uniqueCountsD (valsR es)).map (·.1))) (fill :: (uniqueCountsD (valsR es)).map (·.1)),
+         gather 0 (argsort (fill :: (uniqueCountsD (valsR es)).map (·.1))) ((n - es.length) :: (uniqueCountsD (valsR es)).map (·.2)))
+      else ((uniqueCountsD (valsR es)).map (·.1), (uniqueCountsD (valsR es)).map (·.2)))
+    = ((uniqueCountsD (densifyRow n fill es)).map (·.1), (uniqueCountsD (densifyRow n fill es)).map (·.2)) := by
+  have hcore := uniqueValues_core fill h hnf
+  rw [ucd_fst, ucd_snd, ucd_fst, ucd_snd]
+  by_cases hk : es.length < n
+  · simp only [hk, if_true] at hcore ⊢
+    have hnf' := hnf hk
+    have hvals : gather 0 (argsort (fill :: uniqueValuesD (valsR es))) (fill :: uniqueValuesD (valsR es))
+        = uniqueValuesD (densifyRow n fill es) := by rw [gather_argsort, hcore]
+    -- the count list is the value list mapped through the dense multiplicity
+    have hcounts : (n - es.length) :: (uniqueValuesD (valsR es)).map (fun v => (valsR es).count v)
+        = (fill :: uniqueValuesD (valsR es)).map fun v => (densifyRow n fill es).count v := by
+      rw [List.map_cons]
+      congr 1
+      · rw [count_densifyRow fill h]
+        have : (valsR es).count fill = 0 := List.count_eq_zero.mpr hnf'
+        simp [this]
+      · apply List.map_congr_left
+        intro v hv
+        rw [count_densifyRow fill h]
+        have hv' : v ∈ valsR es := (mem_uniqueValuesD _ _).mp hv
+        have : v ≠ fill := fun hh => hnf' (hh ▸ hv')
+        simp [this]
+    rw [hcounts, gather_map (0 : Int) (0 : Nat) _ _ _ (fun j hj => mem_argsort hj), hvals]
+  · simp only [hk, if_false] at hcore ⊢
+    rw [hcore]
+    congr 1
+    apply List.map_congr_left
+    intro v _
+    rw [count_densifyRow fill h]
+    have : n - es.length = 0 := by omega
+    simp [this]
+
+theorem effectiveRow_facts {n : Nat} {es : Row} (fill : Int) (prune : Bool) (h : RowWF n es)
+    (h1 : prune = true ∨ ExcludedStoredFill n fill es = false) :
+    RowWF n (if prune then pruneRow fill es else es) ∧
+    densifyRow n fill (if prune then pruneRow fill es else es) = densifyRow n fill es ∧
+    ((if prune then pruneRow fill es else es).length < n → fill ∉ valsR (if prune then pruneRow fill es else es)) := by
+  cases prune with
+  | true =>
+    simp only [if_true]
+    exact ⟨pruneRow_wf fill h, densifyRow_prune fill h, fun _ => pruneRow_nofill fill es⟩
+  | false =>
+    simp only [Bool.false_eq_true, if_false]
+    refine ⟨h, trivial, fun hk hm => ?_⟩
+    rcases h1 with h1 | h1
+    · cases h1
+    · unfold ExcludedStoredFill at h1
+      simp only [hk, decide_true, Bool.true_and] at h1
+      obtain ⟨e, he, hv⟩ := List.mem_map.mp hm
+      have := List.any_eq_false.mp h1 e he
+      simp [hv] at this
+
+/-- `unique_counts`, every variant: right whenever no fill value is stored next to an unstored cell
+(or the input is pruned first) and the re-ordering is the corrected one (or at most one distinct stored
+value lies below the fill value). -/
+theorem uniqueCountsWith_dense (step : PermStep) (prune : Bool) {n : Nat} {es : Row} (fill : Int) (h : RowWF n es)
+    (h1 : prune = true ∨ ExcludedStoredFill n fill es = false)
+    (h2 : step = .gather ∨ ExcludedTwoBelow n fill (if prune then pruneRow fill es else es) = false) :
+    uniqueCountsWith step prune n fill es
+      = ((uniqueCountsD (densifyRow n fill es)).map (·.1), (uniqueCountsD (densifyRow n fill es)).map (·.2)) := by
+  obtain ⟨hwf, hd, hnf⟩ := effectiveRow_facts fill prune h h1
+  unfold uniqueCountsWith
+  simp only []
+  generalize (if prune = true then pruneRow fill es else es) = es' at hwf hd hnf h2 ⊢
+  rw [← hd]
+  have hcore := uniqueCounts_gather_core fill hwf hnf
+  simp only [valsR] at hcore
+  cases step with
+  | gather => exact hcore
+  | scatter =>
+    rw [← hcore]
+    by_cases hk : es'.length < n
+    · simp only [hk, if_true]
+      have h2' : ExcludedTwoBelow n fill es' = false := by
+        rcases h2 with h2 | h2
+        · cases h2
+        · exact h2
+      unfold ExcludedTwoBelow at h2'
+      simp only [hk, decide_true, Bool.true_and, decide_eq_false_iff_not, Nat.not_le] at h2'
+      have hU := uniqueValuesD_sorted (es'.map (·.2))
+      have hnfU : fill ∉ uniqueValuesD (es'.map (·.2)) := fun hm => hnf hk ((mem_uniqueValuesD _ _).mp hm)
+      have hfst := ucd_fst (es'.map (·.2))
+      rw [hfst]
+      have e1 := scatter_eq_gather_of_le_one (0 : Int) fill _ hU hnfU (by omega) (fill :: uniqueValuesD (es'.map (·.2))) (by simp)
+      have e2 := scatter_eq_gather_of_le_one (0 : Nat) fill _ hU hnfU (by omega)
+        ((n - es'.length) :: (uniqueCountsD (es'.map (·.2))).map (·.2)) (by rw [ucd_snd]; simp)
+      rw [e1, e2]
+    · simp only [hk, if_false]
+
+/-- `unique_values`, both variants -/
+theorem uniqueValuesWith_dense (prune : Bool) {n : Nat} {es : Row} (fill : Int) (h : RowWF n es)
+    (h1 : prune = true ∨ ExcludedStoredFill n fill es = false) :
+    uniqueValuesWith prune n fill es = uniqueValuesD (densifyRow n fill es) := by
+  obtain ⟨hwf, hd, hnf⟩ := effectiveRow_facts fill prune h h1
+  unfold uniqueValuesWith
+  simp only []
+  generalize (if prune = true then pruneRow fill es else es) = es' at hwf hd hnf ⊢
+  rw [← hd]
+  exact uniqueValues_core fill hwf hnf
+
 end Search
 end SparseV
